@@ -46,6 +46,8 @@ def standard_items(tier, rng, scratch, out, budget, extra_generators=()):
         add(t, VERSIONS[i % 9], 'string-literals')
     for i, t in enumerate(inputs.escape_literals()):
         add(t, VERSIONS[i % 9], 'escape-literals')
+    for i, t in enumerate(inputs.backslash_splits()):
+        add(t, VERSIONS[i % 9], 'backslash-splits')
     for i, lines in enumerate(inputs.fstringb_lines(rng, 2500 if tier == 'quick' else 25000)):
         add(inputs.fstringb_text(lines, final_newline=bool(i % 3)), VERSIONS[i % 9], 'fstringb-lines')
     # grammar sentences: one shortest sentence through every arc of every DFA (all versions), two spellings
